@@ -5,6 +5,17 @@ ROOT = os.path.dirname(os.path.dirname(os.path.abspath(__file__)))
 PROPS = [json.loads(l)["id"] for l in open(os.path.join(ROOT, "properties.jsonl"))]
 
 CLAIMED = {
+ "C06": dict(
+   text="Machine-checked Coq theorems for all names (unbounded): enclosed_name returns the name iff it is NUL-free, "
+        "relative and never climbs above its start at any prefix of the component walk (iff against a declarative "
+        "counting spec), the lexical walk of the result never pops the base; mangled_name re-parses to exactly the "
+        "ordinary components, in order, of the NUL-truncated, separator-normalised name (split/join inversion lemma) "
+        "and is confined under any base.  Path::components is defined in Gallina and compared with std, and the "
+        "hand model with the crate (seekable and streaming accessors), on every string over {a . / \\ NUL} up to "
+        "length 7 (9 thorough) plus random component sequences and Unicode names; CPython normpath is the oracle.",
+   note="Trusted: Coq kernel, extraction+driver, harness; std::path::Path::components is modelled (Spec/PathSpec.v) and validated against std on every case; Unix semantics.",
+   technique="Coq proof (induction over component lists) + exhaustive-by-length differential correspondence",
+   design="8 (C06)"),
  "C18": dict(
    text="Machine-checked Coq theorems over definitions regenerated from src/types.rs on every run: "
         "unpack.pack = id on all 2^32 DOS words (separability + two complete 2^16 sweeps by vm_compute), "
